@@ -130,3 +130,19 @@ package transport
 //@   props C07
 //@   requires !isnil(conn) && !isnil(serializer) && !isnil(logger)
 //@   ensures [send-queue-bounded] is(result, *websocketPeer) && result.(*websocketPeer) != nil && chancap(result.(*websocketPeer).wr) == outQueueSize
+
+// Peers are built by their constructors only; these fields are set there.
+//@ immutable websocketPeer conn, serializer, payloadType, closed, rd, wr, cancelSender, ctxSender, recvDone, writerDone, log
+//@ fieldinv websocketPeer.conn : !isnil(v)
+//@ fieldinv websocketPeer.serializer : !isnil(v)
+//@ fieldinv websocketPeer.closed : v != nil
+//@ fieldinv websocketPeer.rd : v != nil
+//@ fieldinv websocketPeer.wr : v != nil
+//@ fieldinv websocketPeer.cancelSender : v != nil
+//@ fieldinv websocketPeer.ctxSender : !isnil(v)
+//@ fieldinv websocketPeer.recvDone : v != nil
+//@ fieldinv websocketPeer.writerDone : v != nil
+//@ fieldinv websocketPeer.log : !isnil(v)
+//@ fieldinv localPeer.rd : v != nil
+//@ fieldinv localPeer.wr : v != nil
+//@ fieldinv WebsocketError.Err : !isnil(v)
